@@ -322,6 +322,10 @@ Definition date1904_value (a : attrs) : bool :=
   | Some c => str_eqb c v_1 || str_eqb c v_true
   | None => false
   end.
+(* since 4b4b5ee an element named workbookPr without the attribute (x15:workbookPr in an
+   extension list) leaves the flag alone *)
+Definition has_date1904 (a : attrs) : bool :=
+  match get_attribute a a_date1904 with Some _ => true | None => false end.
 
 Fixpoint xlsx_wb_run (rels : rmap) (evs : list event) (mode : xmode) (st : parsed)
   : outcome parsed :=
@@ -349,7 +353,7 @@ Fixpoint xlsx_wb_run (rels : rmap) (evs : list event) (mode : xmode) (st : parse
           | Some k => xlsx_wb_run rels r XMain (add_sheet st (mkMeta name v k) path)
           end
         else if str_eqb l k_workbookPr then
-          xlsx_wb_run rels r XMain (set_1904 st (date1904_value a))
+          xlsx_wb_run rels r XMain (if has_date1904 a then set_1904 st (date1904_value a) else st)
         else if str_eqb l k_definedName then
           match get_attribute a a_name with
           | Some nm => xlsx_wb_run rels r (XName n nm []) st
@@ -1064,8 +1068,9 @@ Definition rels_map (l : list (str * (str * str))) : rmap := rev (map rel_entry 
 
 Definition junk_ok_xlsx (e : event) : bool :=
   match e with
-  | Start n _ => let l := local_name n in
-                 negb (str_eqb l k_sheet || str_eqb l k_workbookPr || str_eqb l k_definedName)
+  | Start n a => let l := local_name n in
+                 negb (str_eqb l k_sheet || str_eqb l k_definedName)
+                 && (negb (str_eqb l k_workbookPr) || negb (has_date1904 a))
   | End n => negb (str_eqb (local_name n) k_workbook)
   | _ => true
   end.
